@@ -55,7 +55,7 @@ for m in sorted(glob.glob(os.path.join(V, 'seeded/*/meta.json'))):
         out.append('* `%s` — %s' % (os.path.basename(os.path.dirname(m)), d['strengthened'].replace('\n', ' ')))
 out.append('')
 out.append('The seeded changes were produced by fresh sub-agents that were given only the text of one property and a scratch '
-           'worktree of /repo (twenty-two rounds of 20 agents, exact duplicates of earlier changes not filed; from round 3 on each agent was pointed at one of the mechanisms the property is anchored in). '
+           'worktree of /repo (twenty-three rounds of 20 agents, exact duplicates of earlier changes not filed; from round 3 on each agent was pointed at one of the mechanisms the property is anchored in). '
            'Each was confirmed by `tools/confirm_seed.py` (demo passes on HEAD, patch applies, pinned suite 1149 passed, demo fails) and '
            'run against the checks with `tools/try_mutation2.sh` / `try_mutation3.sh` (scratch worktree + `VERIF_REPO`; the latter in a private copy of /verif); none is ever committed to /repo.')
 out.append('')
